@@ -136,8 +136,10 @@ fn main_rs(prop: &str, corp: &Corpus, libs: &[LibCrate], skipped_rustc: &[String
         }
     }
     let corpus_note = format!(
-        "corpus of this run: {} programs generated from VERIF_SEED, {} rejected by the dfir_lang pre-check and skipped (not a violation: compile-time acceptance is C18/C19/C41 territory){}, {} rejected by rustc and skipped, {} compiled ({} program variants); operators compiled as pull/push (count per operator over all variants; {} operators seen in both colours): {}",
+        "corpus of this run: {} programs generated from VERIF_SEED ({} of them regenerated from the next attempt number and {} shape variants dropped because dfir_lang would compile a multiset_delta push-side, which rustc cannot type — see e3_ticksim/FINDINGS.md N1), {} rejected by the dfir_lang pre-check and skipped (not a violation: compile-time acceptance is C18/C19/C41 territory){}, {} rejected by rustc and skipped, {} compiled ({} program variants); operators compiled as pull/push (count per operator over all variants; {} operators seen in both colours): {}",
         corp.generated,
+        corp.regenerated,
+        corp.variants_dropped,
         corp.rejected.len(),
         if corp.rejected.is_empty() { String::new() } else { format!(" [{}]", corp.rejected.iter().map(|r| format!("{}: {}", r.0, r.1.chars().take(120).collect::<String>())).collect::<Vec<_>>().join("; ")) },
         skipped_rustc.len(),
